@@ -10,9 +10,17 @@
   Model: MM/Model/C37.lean (tied to /repo/internal/config/config.go:expandEnvVars by T-diff).
 -/
 import MM.Lemmas.C37
+import MM.Gen.C37
 
 namespace MM.C37
 open MM
+
+/-- The pattern compiled into the binary is, character for character, the one MM/Model/C37.lean
+    models (regenerated from `envVarRegex.String()`): ANY edit of the regexp — including ones with
+    no difference observable through expandEnvVars, such as `[^}]+` → `[^}]*` — breaks this tie and
+    asks for the model to be re-read against the new pattern. -/
+theorem C37_pattern_tie :
+    Gen.C37.pattern = "\\$\\{([^}]+)\\}|\\$([A-Za-z_][A-Za-z0-9_]*)" := by decide
 
 /-- Text without `$` is unchanged. -/
 theorem C37_no_dollar_id (env : Env) (s : Bytes) (h : ∀ b ∈ s, b ≠ cDollar) : expand env s = s := by
